@@ -55,7 +55,10 @@ TECHNIQUE = ('explicit-state exploration of the configuration graph of 16 (+1 in
              'x every answer of the random seam, compared step by step with a plain-Python reference model; every '
              'configuration evaluated through the engine against the formula written out by hand; every history of '
              '(way of obtaining a Configuration object) x 1..2 (3) assignments of its selections property, every observer '
-             'of the object against the reference model of the last assignment')
+             'of the object against the reference model of the last assignment; the static / operator / hidden-state '
+             '(thorough: depth-2 history) exploration repeated on the 10 (11) structures with hand-written catalogs with every '
+             'catalog under an explicitly declared Controller whose names are handed over as each of 9 kinds of iterable '
+             '(list, tuple, dict keys, re-iterable without len, generator, map, iterator, chain, hand-written one-shot iterator)')
 RULE = ('one case per (structure, configuration, listing order) identifier check, per (structure, configuration, '
         'entry point, parameter point) evaluation against the hand-written formula, per visited element of an '
         'iteration, and per operator application (structure, hidden state, argument configuration, operator, step, '
@@ -63,7 +66,9 @@ RULE = ('one case per (structure, configuration, listing order) identifier check
         'configuration and listing order, the assigned configurations and their listing orders). Non-trivial: '
         'evaluations always; identifier checks whose listing order is '
         'not the canonical one; operator applications that change the configuration; Configuration-object histories '
-        'whose last assignment changes the configuration or lists it in a non-canonical order. distinct = distinct such keys.')
+        'whose last assignment changes the configuration or lists it in a non-canonical order. The cases of the '
+        '"containers" variants (kind of iterable the controller names are given as, all / only the shared controller declared '
+        'explicitly) are the same cases keyed additionally by the variant. distinct = distinct such keys.')
 ASSUMPTIONS = [
     'names of controllers, catalogs and members do not contain the reserved characters ";" and ":" and catalog '
     'names are unique in a formula (the library reserves / requires this)',
@@ -73,6 +78,9 @@ ASSUMPTIONS = [
     '(rel 1e-10) on a 4-row table at two parameter points',
     'a Configuration object changes only through its public `selections` property (valid, complete assignments); in-place '
     'edits of the returned list are outside the statement; after a REFUSED assignment (duplicate controller) the object must still be the configuration of its last accepted assignment',
+    'a Controller may be declared with ANY iterable of distinct names (signature Iterable[str]), one-shot iterators included; '
+    'the iterable is read in its own order; unordered containers (set) are not in the alphabet; Catalog(named_expressions) is '
+    'declared as a list and is always given a list',
     'structures are bounded: <= 3 controllers, <= 4 selections per controller, <= 12 configurations per structure (24 in the thorough tier)',
 ]
 ANCHOR_FILES = ['src/biogeme/catalog.py', 'src/biogeme/controller.py', 'src/biogeme/configuration.py',
